@@ -23,6 +23,8 @@ type Env struct {
 	// (two per generic: the first over a type without references, the second over one that holds references).
 	Generics     []*GenericDecl
 	GenericInsts []*Decl
+	// Twins: two structs called Twin in two imported packages of the same name (see DrawEnv)
+	Twins []*Decl
 	// Aliases are alias declarations of the subject package (type A0 = T) over declarations that precede the
 	// general structs, so that struct fields can be spelled through them.
 	Aliases []*AliasDecl
@@ -147,6 +149,18 @@ func DrawEnv(t *rapid.T, opt EnvOpt) *Env {
 				e.foreign = nil
 			}
 		}
+	}
+	// two types that are spelled alike (ext.Twin) and differ in everything a generator may want to remember about a
+	// type: the first is comparable with ==, copyable by assignment and has exported fields only, the second holds a
+	// pointer (and an unexported field)
+	if len(e.Ext) >= 2 && e.Ext[0].Name == e.Ext[1].Name {
+		t1 := &Decl{Name: "Twin", Pkg: e.Ext[0], IsStruct: true, Fields: []Field{{Name: "A", Type: B("int")}, {Name: "B", Type: B("string")}}}
+		t2 := &Decl{Name: "Twin", Pkg: e.Ext[1], IsStruct: true, Fields: []Field{{Name: "A", Type: B("int")}, {Name: "P", Type: PtrTo(B("string"))}}}
+		if !opt.NoPrivateExt && !opt.ExportedOnly {
+			t2.Fields = append(t2.Fields, Field{Name: "c", Type: B("bool")})
+		}
+		e.ExtStructs = append(e.ExtStructs, t1, t2)
+		e.Twins = []*Decl{t1, t2}
 	}
 	// named basics
 	nbPool := []struct{ n, u string }{{"MyInt", "int"}, {"MyStr", "string"}, {"MyBool", "bool"}, {"MyF", "float64"}, {"MyU8", "uint8"},
